@@ -3,6 +3,7 @@
 package agent
 
 import (
+	"bytes"
 	"sort"
 
 	"github.com/postalsys/muti-metroo/internal/exit"
@@ -35,24 +36,33 @@ type VerifRelaySnapshot struct {
 	ByDownstream []VerifRelayIndexed
 }
 
-// VerifRelayIndexed is one index slot: key -> entry.
+// VerifRelayIndexed is one index slot: (peer, id) key -> entry.
 type VerifRelayIndexed struct {
-	Key   uint64
-	Entry VerifRelayEntry
+	KeyPeer identity.AgentID
+	Key     uint64
+	Entry   VerifRelayEntry
 }
 
 func verifSnapshot(r *relayTable) VerifRelaySnapshot {
 	var s VerifRelaySnapshot
 	r.mu.RLock()
 	for k, e := range r.byUpstream {
-		s.ByUpstream = append(s.ByUpstream, VerifRelayIndexed{k, *verifEntry(e)})
+		s.ByUpstream = append(s.ByUpstream, VerifRelayIndexed{k.peer, k.id, *verifEntry(e)})
 	}
 	for k, e := range r.byDownstream {
-		s.ByDownstream = append(s.ByDownstream, VerifRelayIndexed{k, *verifEntry(e)})
+		s.ByDownstream = append(s.ByDownstream, VerifRelayIndexed{k.peer, k.id, *verifEntry(e)})
 	}
 	r.mu.RUnlock()
-	sort.Slice(s.ByUpstream, func(i, j int) bool { return s.ByUpstream[i].Key < s.ByUpstream[j].Key })
-	sort.Slice(s.ByDownstream, func(i, j int) bool { return s.ByDownstream[i].Key < s.ByDownstream[j].Key })
+	less := func(x []VerifRelayIndexed) func(i, j int) bool {
+		return func(i, j int) bool {
+			if c := bytes.Compare(x[i].KeyPeer[:], x[j].KeyPeer[:]); c != 0 {
+				return c < 0
+			}
+			return x[i].Key < x[j].Key
+		}
+	}
+	sort.Slice(s.ByUpstream, less(s.ByUpstream))
+	sort.Slice(s.ByDownstream, less(s.ByDownstream))
 	return s
 }
 
@@ -74,9 +84,12 @@ func (v *VerifRelayTable) Insert(e VerifRelayEntry) int {
 	return len(v.entries) - 1
 }
 func (v *VerifRelayTable) Delete(handle int) { v.t.Delete(v.entries[handle]) }
-func (v *VerifRelayTable) LookupBoth(id uint64) (up, down *VerifRelayEntry) {
-	u, d := v.t.LookupBoth(id)
+func (v *VerifRelayTable) LookupBoth(id uint64, p identity.AgentID) (up, down *VerifRelayEntry) {
+	u, d := v.t.LookupBoth(id, p)
 	return verifEntry(u), verifEntry(d)
+}
+func (v *VerifRelayTable) LookupDownstreamFrom(id uint64, p identity.AgentID) *VerifRelayEntry {
+	return verifEntry(v.t.LookupDownstreamFrom(id, p))
 }
 func (v *VerifRelayTable) LookupDownstream(id uint64) *VerifRelayEntry {
 	return verifEntry(v.t.LookupDownstream(id))
